@@ -118,8 +118,19 @@ by new; model bytes = real bytes (`save_incr`), model load = real load. Non-triv
             let req = format!("save_incr {} {} {} {} {} {} {}", kind, nd.max_id, hex_tok(nd.version.as_bytes()), hex_tok(&nd.binary_mark), hex_tok(&bytes),
                 show_obj(&Object::Dictionary(nd.trailer.clone())), show_objects(nd.objects.iter()));
             let mut out = Vec::new();
+            let inc_before = inc.clone();
             match guard(|| inc.save_to(&mut out)) {
                 Ok(Ok(())) => {
+                    // the same update through a sink with short writes / Interrupted: the file must be the same
+                    if (i + step as u64) % 3 == 0 {
+                        let mut odd = OddSink::new(&mut r); let mut i2 = inc_before.clone();
+                        match guard(|| i2.save_to(&mut odd)) {
+                            Ok(Ok(())) => if odd.data != out { c.oracle_fail("incr:sink-dependent-bytes", &format!("step {}: incremental save through a sink with {} gives other bytes than into a Vec", step, odd.describe()), json!({"file": hex(&out), "odd": hex(&odd.data)})); },
+                            Ok(Err(e)) => c.oracle_fail("incr:sink-dependent-bytes", &format!("incremental save through a sink with {} fails: {:?}", odd.describe(), e), json!({})),
+                            Err((site, msg)) => c.oracle_fail(&format!("panic@{}", site), &msg, json!({})),
+                        }
+                        c.count("incr.odd_sink_saves");
+                    }
                     c.corr(req, format!("ok {} {} {}", hex_tok(&out), inc.new_document.max_id, show_obj(&Object::Dictionary(inc.new_document.trailer.clone()))));
                     c.nontrivial(&format!("{}-{}", i, step));
                     if !out.starts_with(&bytes) { c.oracle_fail("incr:prefix", "previous bytes are not an unchanged prefix of the incremental save", json!({"step": step})); break; }
